@@ -56,7 +56,10 @@ def argmax(
     """
     a = numpoly.aspolynomial(a)
     options = numpoly.get_options()
+    # rank the reversed array, so that among equal elements the first has the
+    # highest rank and numpy.argmax returns the first occurrence.
+    reverse = (slice(None, None, -1),) * a.ndim
     proxy = numpoly.sortable_proxy(
-        a, graded=options["sort_graded"], reverse=options["sort_reverse"]
-    )
+        a[reverse], graded=options["sort_graded"], reverse=options["sort_reverse"]
+    )[reverse]
     return numpy.argmax(proxy, axis=axis, out=out)
